@@ -763,7 +763,7 @@ def parse_spec_file(path):
                 sect = None
             elif kw == 'import':
                 flush_raw()
-                chunks.append(('import', pos[0]))
+                chunks.append(('import', pos[0] if 'only' not in attrs else (pos[0], attrs['only'].split(','))))
             elif kw == 'include':
                 flush_raw()
                 for ch in parse_spec_file(os.path.join(os.path.dirname(os.path.dirname(path)) if os.path.basename(os.path.dirname(path)) == 'units' else os.path.dirname(path), pos[0])):
@@ -1052,9 +1052,19 @@ class Generator:
             elif kind == 'fn':
                 fns.append(self.emit_fn(out, c, stub=c['stub_only'], twin=twin))
             elif kind == 'import':
+                only = None
+                if isinstance(c, tuple):
+                    c, only = c
                 if c not in self.registry:
                     raise Undecided(f'unit {unit}: import of unknown fn id {c}')
-                fns.append(self.emit_fn(out, self.registry[c], stub=True))
+                spec_i = self.registry[c]
+                if only is not None:
+                    # import only some ensures sections of the (proved) contract: a weaker contract is still a proved one
+                    missing = [l for l in only if l not in [e['label'] for e in spec_i['ensures']]]
+                    if missing:
+                        raise Undecided(f'unit {unit}: import of {c}: unknown ensures label(s) {missing}')
+                    spec_i = dict(spec_i, ensures=[e for e in spec_i['ensures'] if e['label'] in only])
+                fns.append(self.emit_fn(out, spec_i, stub=True))
             elif kind == 'item':
                 items.append(self.emit_item(out, c))
         out.emit('} // verus!\nfn main() {}\n')
